@@ -15,6 +15,19 @@ def _self_call_on(call, rv, what):
 
 
 def r1_union_spellings_one_path(ctx):
+    """Every spelling of an annotation has one normal form: decided by interpreting the normaliser on the spellings
+    (r10); the reading of the statement shapes below is the fallback when the normaliser cannot be interpreted."""
+    from .common import run_fallback
+
+    n0 = len(ctx.obs)
+    try:
+        r10_spellings_normalise_identically(ctx)
+    except AnalysisError as e:
+        del ctx.obs[n0:]
+        run_fallback(ctx, _r1_union_spellings_shape, e, "normaliser")
+
+
+def _r1_union_spellings_shape(ctx):
     repo = ctx.repo
     nz, call, t, chain = normaliser_chain(ctx)
     rv = recv_name(call)
@@ -82,7 +95,7 @@ def r2_normaliser_front(ctx):
     ctx.ob(f"{call.key}:annotated", call.loc(hit[1]) if hit else call.loc(), "Annotated[A, ...] is unwrapped to A", ok, "Annotated[A, ...] is no longer unwrapped: it dispatches differently from A")
 
 
-def _handler_by_interpretation(ctx, f, values=False):
+def _handler_by_interpretation(ctx, f, values=False, bindings=None):
     """Interpret a generic handler `handler(normaliser, t, fn)` on t.__args__ = (a0, a1, a2): the value type it builds
     is subscripted with every argument exactly once, in order - all normalised, or all raw."""
     from ..metainterp import HostFn, HostInterp, Raised, Record
@@ -102,14 +115,19 @@ def _handler_by_interpretation(ctx, f, values=False):
             r = ctx.repo.resolve_name(f.module, x.value.id)
             if r:  # a class, or a value type made by a decorator from a function
                 genv[x.value.id] = Sub(x.value.id)
-    if not genv:
+    cenv = {}
+    for name, expr in (bindings or {}).items():
+        # a handler made by a factory: its closure variable holds the value type the factory was given
+        if isinstance(expr, ast.Name) and ctx.repo.resolve_name(f.module, expr.id):
+            cenv[name] = Sub(expr.id)
+    if not genv and not cenv:
         return None
     funcs = {n: g.node for n, g in f.module.funcs.items() if g.parent is None and g.cls is None and g is not f and not g.node.decorator_list}
     hi = HostInterp({}, Record(), {}, globals_env=genv, classes={}, functions=funcs)
     hi.host_types = hi.host_types + (Sub,)
     norm = HostFn(lambda a, fn=None: ("N", a))
     try:
-        got = hi.call_function(f.node, [norm, Record(__args__=args, __origin__="G"), "<fn>"], {}, {})
+        got = hi.call_function(f.node, [norm, Record(__args__=args, __origin__="G"), "<fn>"], {}, cenv)
     except (AnalysisError, Raised) as e:
         ctx.note(f"{f.key} not interpretable ({e}); shape rule used instead")
         return None
@@ -140,11 +158,12 @@ def r3_generic_handlers_use_every_argument(ctx):
     hs = [(f, g) for f, g in A.generic_handlers(repo) if dotted(g) not in ("typing.Union", "Union")]
     ctx.require(len(hs) >= 5, f"expected the Literal / tuple / Sequence / Collection / Mapping / Callable handlers, found {len(hs)}")
     shapes = {}
+    _bind = {(r[0].key, dotted(r[1])): getattr(r, "bindings", None) for r in A.generic_handlers(repo)}
     for f, g in hs:
         ctx.touch(f)
         nz, t = f.params[0], f.params[1]
         gname = dotted(g)
-        verdict = _handler_by_interpretation(ctx, f, values=gname in ("typing.Literal", "Literal"))
+        verdict = _handler_by_interpretation(ctx, f, values=gname in ("typing.Literal", "Literal"), bindings=_bind.get((f.key, gname)))
         if verdict is not None:
             ok_i, detail_i = verdict
             ctx.ob(
@@ -340,9 +359,8 @@ def _more(name):
 
 
 RULES = [
-    ("C15.R10", "P1", lambda ctx: r10_spellings_normalise_identically(ctx), "every spelling of an annotation has the same normal form (normaliser interpreted)"),
     ("C15.R5", "P1", r5, "every value of a Literal counts on every code path (sibling footprints)"),
-    ("C15.R1", "P1", r1_union_spellings_one_path, "three union spellings, one path"),
+    ("C15.R1", "P1", r1_union_spellings_one_path, "every spelling of an annotation has the same normal form (normaliser interpreted; statement shapes as fallback)"),
     ("C15.R2", "P1", r2_normaliser_front, "strings first, Annotated unwrapped"),
     ("C15.R3", "P1", r3_generic_handlers_use_every_argument, "generic handlers use every argument"),
     ("C15.R4", "P1", r4_commutative_combinators, "commutative combinators compare without order"),
@@ -421,6 +439,7 @@ def r10_spellings_normalise_identically(ctx):
         "a plain class": [("int", int), ("'int'", "int"), ("Annotated[int, ..]", typing.Annotated[int, "m"])],
         "int or None": [("typing.Optional[int]", typing.Optional[int]), ("typing.Union[int, None]", typing.Union[int, None]), ("(int, None)", (int, None)), ("(None, int)", (None, int)), ("'typing.Optional[int]'", "typing.Optional[int]")],
         "None": [("type(None)", type(None)), ("None", None), ("'None'", "None")],
+        "three members, each to be normalised": [("(int, str, object)", (int, str, object)), ("(int, 'str', typing.Any)", (int, "str", typing.Any)), ("typing.Union[int, str, object]", typing.Union[int, str, object])],
     }
     if hasattr(types, "UnionType"):
         groups["int | str"] += [("int | str", int | str), ("'int | str'", "int | str"), ("Annotated[int | str, ..]", typing.Annotated[int | str, "m"])]
